@@ -81,6 +81,21 @@ func (x *Exec) ndCall(fr *frame, fn *ssa.Function, args []Value) Value {
 		return x.M.Mem.AllocSym(n, nm).Ptr()
 	case "nd_try":
 		return x.ndTry(fr, args[0])
+	case "nd_go":
+		if x.sched == nil {
+			x.sched = newScheduler(x)
+		}
+		fv := args[0]
+		x.sched.spawnFunc(func() {
+			fn, ctx := x.resolveFunc(fv)
+			x.callClosure(nil, fn, ctx, nil, false)
+		})
+		return nil
+	case "nd_join":
+		if x.sched == nil {
+			return smt.False
+		}
+		return smt.Bool(x.sched.join())
 	case "nd_nevents":
 		return c64(uint64(len(x.events)))
 	case "nd_event_kind":
